@@ -187,11 +187,16 @@ class AsyncTask(futures.FutureBase):
                     # This means there was no asynq.result() call, so the value of
                     # this task should be None
                     return_value = None
-                self._queue_exit(return_value)
+                if self._value is _futures_none:
+                    self._queue_exit(return_value)
+                # else: this task was already failed while its generator was executing (something it
+                # called synchronously awaited it: "generator already executing"); like _accept_error,
+                # we can't change the outcome any more.
             except GeneratorExit as error:
                 error_type = type(error)
                 if error_type is AsyncTaskResult:
-                    self._queue_exit(error.result)
+                    if self._value is _futures_none:
+                        self._queue_exit(error.result)
                 elif error_type is AsyncTaskCancelledError:
                     self._accept_error(error)
                 else:
